@@ -423,7 +423,10 @@ Section Proofs.
   Theorem backends_recover_agree_low_s r s v z : high s = false -> rrsv RK r s v z = rrsv RL r s v z.
   Proof. intros H. rewrite !rrsv_eff, eff_libsecp, eff_k256. unfold low_s. rewrite H. reflexivity. Qed.
 
-  Theorem backends_recover_differ_high_s s :
+  (* HISTORICAL (before fix 378a736): without the normalisation step, i.e. calling recover_from_prehash
+     (= recover_rsv under rules_k256) directly as k256.rs did, the back-ends differed for every high s.
+     The current k256.rs recover is recover_rsv_normalising; see k256_normalising_agrees below. *)
+  Theorem unnormalised_k256_recover_differs_high_s s :
     1 <= s < n -> high s = true ->
     exists r v z Q, rrsv RL r s v z = Some Q /\ rrsv RK r s v z = None.
   Proof.
@@ -437,7 +440,7 @@ Section Proofs.
     pose proof (Z.div_mod n 2 ltac:(lia)). pose proof (Z.mod_pos_bound n 2 ltac:(lia)). lia.
   Qed.
 
-  (* the proposed fix of the k256 back-end restores agreement on every input *)
+  (* the normalisation done by k256.rs recover (fix 378a736) gives agreement on every input *)
   Theorem k256_normalising_agrees r s v z :
     recover_rsv_normalising point pt_eqb add zero smul G n x_of lift_x RK r s v z = rrsv RL r s v z.
   Proof.
@@ -619,4 +622,32 @@ Section Proofs.
       rewrite E1, E2. apply andb_true_iff. split; [|apply Z.eqb_eq, Hx].
       apply negb_true_iff. destruct (pt_eqb _ zero) eqn:E; [|reflexivity]. apply eqb_zero in E. contradiction.
   Qed.
+
+  (* ---------------------------------------------------------------- the two back-ends, current code *)
+  Theorem backends_recover_agree sig msg :
+    recover_norm point pt_eqb add zero smul G n x_of lift_x RK sig msg = rec RL sig msg.
+  Proof.
+    unfold recover_norm, recover. destruct (decode_signature sig) as [sg v]. apply k256_normalising_agrees.
+  Qed.
 End Proofs.
+
+(* the normalising recover of the k256 back-end is plain recover on normalised signatures (in particular
+   on every signature produced by sign) *)
+Theorem recover_norm_low_s (point : Type) pt_eqb add zero smul (G : point) n x_of lift_x A sig msg :
+  is_high n (sig_s (fst (decode_signature sig))) = false ->
+  recover_norm point pt_eqb add zero smul G n x_of lift_x A sig msg =
+  recover point pt_eqb add zero smul G n x_of lift_x A sig msg.
+Proof.
+  unfold recover_norm, recover, recover_rsv_normalising. destruct (decode_signature sig) as [sg v]. cbn [fst].
+  intros ->. rewrite andb_false_r. reflexivity.
+Qed.
+
+(* deterministic signing: the back-ends feed the nonce oracle with m mod n resp. m; equal below n *)
+Theorem sign_det_agree_below_n (point : Type) pt_eqb zero smul (G : point) n x_of y_odd nonce d msg :
+  bytes_z msg < n ->
+  sign_det point pt_eqb zero smul G n x_of y_odd nonce true d msg =
+  sign_det point pt_eqb zero smul G n x_of y_odd nonce false d msg.
+Proof.
+  intros H. unfold sign_det. rewrite Z.mod_small; [reflexivity|].
+  split; [unfold bytes_z; apply N2Z.is_nonneg|exact H].
+Qed.
